@@ -49,7 +49,12 @@ namespace Oomd {
 StatsClient::StatsClient(const std::string& stats_socket_path)
     : stats_socket_path_(stats_socket_path) {
   serv_addr_.sun_family = AF_UNIX;
-  ::strcpy(serv_addr_.sun_path, stats_socket_path_.c_str());
+  // an over-long path is truncated (connecting to it then fails cleanly)
+  ::strncpy(
+      serv_addr_.sun_path,
+      stats_socket_path_.c_str(),
+      sizeof(serv_addr_.sun_path) - 1);
+  serv_addr_.sun_path[sizeof(serv_addr_.sun_path) - 1] = '\0';
 }
 
 std::optional<std::unordered_map<std::string, int>> StatsClient::getStats() {
